@@ -35,7 +35,10 @@ REQUIRED = ["KV.C07.count_block_indep", "KV.C07.lmplz_indep", "KV.C07.lmplz_inde
             "KV.C07.count_blocks_nodup", "KV.C07.chain_stream_deterministic",
             "KV.C07.lmplz_eq_spec_discharged", "KV.C07.lmplz_indep_discharged",
             "KV.C07.chain_stage_stream", "KV.C07.mergeRight_partition", "KV.C07.mergeRightUnigram_partition",
-            "KV.C07.single_chain_stages", "KV.C07.lmplz_indep_final2"]
+            "KV.C07.single_chain_stages", "KV.C07.lmplz_indep_final2",
+            "KV.C07.addRight_stream", "KV.C07.adder_prefix_monotone", "KV.C07.adder_fanin_delivers",
+            "KV.C07.mergeRight_two_chains", "KV.C07.countsOfCounts_perm", "KV.C07.discounts_barrier_indep",
+            "KV.C07.fanin_delivers", "KV.C07.barrier_indep", "KV.C07.lmplz_indep_final3"]
 
 OKISH = ("ok", "config")
 
